@@ -24,14 +24,14 @@ func init() {
 	register(&Check{ID: "C20", Level: "model_checking", Run: runC20, Replay: replayC20})
 }
 
-var c20KindNames = []string{"Id", "Dot", "Add3", "Call", "Clone", "RenderWithSharedFile", "Tag", "Line", "Case", "Block", "AddSpread", "QualSameName", "DoAppendAndCloneInside"}
+var c20KindNames = []string{"Id", "Dot", "Add3", "Call", "Clone", "RenderWithSharedFile", "Tag", "Line", "Case", "Block", "AddSpread", "QualSameName", "DoAppendAndCloneInside", "LitFuncCounting"}
 
 // Two alphabets (operation kinds on any pool member) with their pool sizes: the general one, and
 // one of clause-like tokens whose rendering depends on their neighbours (Line, Case, Block).
 // The third alphabet: items spread from ONE caller-owned list (with a nil in the middle) that every
 // such operation of the history reuses, and qualified identifiers whose paths differ per statement
 // but share the package name.
-var c20Alphabets = [][]int{{0, 1, 2, 3, 4, 5, 6}, {0, 1, 7, 8, 9, 4}, {0, 3, 10, 11, 4, 12}}
+var c20Alphabets = [][]int{{0, 1, 2, 3, 4, 5, 6}, {0, 1, 7, 8, 9, 4}, {0, 3, 10, 11, 4, 12, 13}}
 var c20Pools = []int{4, 3, 3}
 
 // the alphabet in force (searches run one after another)
@@ -84,6 +84,11 @@ func c20Apply(s *jen.Statement, t c20Tok) {
 		s.Block(jen.Id(t.name))
 	case 10:
 		s.Add(jen.Id("sa"), nil, jen.Id("sb"), jen.Id("sc"))
+	case 13:
+		// a literal from a callback that answers differently every time it is asked
+		n := 0
+		name := t.name
+		s.LitFunc(func() interface{} { n++; return fmt.Sprintf("%s#%d", name, n) })
 	case 11:
 		// name = t<statement>_<n>: the path is particular to the statement, the package name is not
 		s.Qual("p"+t.name[1:strings.Index(t.name, "_")]+"/codec", "X"+t.name)
